@@ -51,6 +51,16 @@ theorem jar_failures_are_K1 (pol : Policy) (hist : List (Nat × JarOp)) (cl : St
     k = true ∧ Known.K1 [] hist = true := by
   rw [jar_refines_abstract] at h; exact specJarT_implRunT hist [] cl k h
 
+/-- **Step by step.** Whatever happened before — including lookups inside the K1 region — an
+    operation that is itself outside K1 (no stored unexpired cookie of its host on which the two path
+    tests disagree) observes exactly what the property demands. -/
+theorem jar_get_exact_stepwise (pol : Policy) (pre : List (Nat × JarOp)) (now : Nat) (op : JarOp)
+    (h : Known.k1At now (absFinalT pre []) op = false) :
+    ((runJarT pol (pre ++ [(now, op)]) JarState.init).getLast?).getD .done = specObs now (absFinalT pre []) op := by
+  rw [jar_refines_abstract, implRunT_append]
+  simp only [implRunT, List.getLast?_append, List.getLast?_singleton, Option.some_or, Option.getD_some]
+  exact implObs_eq_specObs now _ op h
+
 /-- constant-time form (what the driver runs) -/
 theorem jar_meets_spec_const_partial (pol : Policy) (now : Nat) (ops : List JarOp)
     (h : Known.K1 [] (ops.map fun op => (now, op)) = false) :
